@@ -45,8 +45,11 @@ func (c config) allowed() []int {
 		if off, ok := c.offset(a); ok && (off > 0x7FFF || off < -0x7FFF) {
 			continue
 		}
-		if a >= 17 && c.Skip < 5 {
+		if a >= 17 && a <= 19 && c.Skip < 5 {
 			continue // steps relative to skipLastN coincide with +1..+3 for small values
+		}
+		if a == symTickFail && c.Syms == nil && !c.Two {
+			continue // the failing tick is part of the restricted alphabets and of the two-stream configuration
 		}
 		out = append(out, a)
 	}
@@ -56,9 +59,10 @@ func (c config) allowed() []int {
 const interval = 100 * time.Millisecond
 
 // symbol names; offsets are relative to the highest true number received (H) and the window S.
-var symNames = []string{"+1", "+2", "+3", "+S-1", "+S", "+S+1", "+2S", "+0x7FFF", "dup", "-1", "-2", "-(S-1)", "-S", "-(S+1)", "-2S", "fill", "T", "+K-1", "+K", "+K+1"} // K = skipLastN
+var symNames = []string{"+1", "+2", "+3", "+S-1", "+S", "+S+1", "+2S", "+0x7FFF", "dup", "-1", "-2", "-(S-1)", "-S", "-(S+1)", "-2S", "fill", "T", "+K-1", "+K", "+K+1", "Tfail"} // K = skipLastN; Tfail = a tick during which the RTCP writer refuses every write
 
 const symTick = 16
+const symTickFail = 20
 
 func (c config) offset(sym int) (int64, bool) {
 	s := int64(c.Size)
@@ -195,6 +199,9 @@ type system struct {
 	st    []*stream
 	plain *stream // stream that did not negotiate NACK: nothing may ever be requested for it
 	buf   []byte
+	// lastTickFailed: the most recent tick met a failing writer. Part of the state key: what the loop goroutine
+	// keeps in its own variables between ticks is not reachable from the interceptor value
+	lastTickFailed bool
 }
 
 func newSystem(c config) (*system, error) {
@@ -274,8 +281,24 @@ func (s *system) apply(k, sym int) (string, error) {
 	c := s.cfg
 	st := s.st[k]
 	if sym == symTick {
+		s.lastTickFailed = false
 		vsched.Advance(interval)
 		return s.checkTick()
+	}
+	if sym == symTickFail {
+		// the transport refuses every write of this tick: what was offered is judged like what is written in
+		// any other tick (every stream's request is still attempted, and a refused request counts as a request),
+		// and nothing of it may come back in a later tick
+		s.lastTickFailed = true
+		s.sink.Err = hk.ErrInjected
+		vsched.Advance(interval)
+		s.sink.Err = nil
+		if got := s.sink.Take(); len(got) > 0 {
+			return "", fmt.Errorf("RTCP recorded as written while the writer was failing: %v", got)
+		}
+		s.sink.Pkts, s.sink.Refused = s.sink.Refused, nil
+		d, err := s.checkTick()
+		return "f" + d, err
 	}
 	var v int64
 	if sym == 15 { // fill: lowest missing number in the window, else a duplicate of H
@@ -442,11 +465,14 @@ func exec(c config, hist []int) hk.Step {
 			}
 			if i == len(hist)-1 {
 				step.Outcome = out
-				step.Nontrivial = sym == symTick && out != "t0;" && out != "t0;0;"
+				step.Nontrivial = (sym == symTick || sym == symTickFail) && out != "t0;" && out != "t0;0;" && out != "ft0;" && out != "ft0;0;"
 			}
 		}
 		if step.Violation == nil && !step.Dead {
 			key := hk.DeepHash(s.icpt) ^ hk.EnvHash()
+			if s.lastTickFailed {
+				key = ^key
+			}
 			for _, st := range s.st {
 				key = key*31 + st.m.hash()
 			}
@@ -514,7 +540,7 @@ func configs(tier string) []config {
 	}
 	for _, max := range []int{0, 1, 2} {
 		for _, skip := range []int{0, 1} {
-			out = append(out, config{Size: 64, Skip: skip, Max: max, Start: 65530, Depth: deep, Syms: []int{0, 1, 8, 9, 15, 16}})
+			out = append(out, config{Size: 64, Skip: skip, Max: max, Start: 65530, Depth: deep, Syms: []int{0, 1, 8, 9, 15, 16, symTickFail}})
 		}
 	}
 	// a large skipLastN (beyond the default window of 512) with a larger window, options given in both orders;
